@@ -160,11 +160,15 @@ func vfC14(w *vfWorld) {
 	cfg.Store = vfPick(t, "c14.store", []string{"cookie", "redis"})
 	cfg.CookieRefresh, cfg.CookieExpire = 10*time.Minute, 6*time.Hour
 	cfg.Extra = append(cfg.Extra, "--pass-access-token=true", "--set-xauthrequest=true", "--skip-jwt-bearer-tokens=true")
-	flows := []string{"login", "login-profile", "bearer", "refresh", "plain-login", "plain-stale", "refresh-profile", "google-login"}
+	flows := []string{"login", "login-profile", "bearer", "refresh", "plain-login", "plain-stale", "refresh-profile", "google-login", "backend-logout"}
 	flow := flows[t.Choice("c14.flow", len(flows))]
 	if strings.HasPrefix(flow, "plain") {
 		cfg.Provider = "plain"
 		cfg.Extra = []string{"--pass-access-token=true", "--set-xauthrequest=true"}
+	}
+	if flow == "backend-logout" {
+		// the sign-out calls the provider's end-session endpoint from the back channel
+		cfg.Extra = append(cfg.Extra, "--backend-logout-url=http://"+vfIdpHost+"/logout?id_token_hint={id_token}")
 	}
 	if flow == "google-login" {
 		cfg.Provider = "google"
@@ -288,6 +292,8 @@ func vfC14(w *vfWorld) {
 				}
 			})
 			return true
+		case "backend-logout":
+			return login(b)
 		case "refresh", "refresh-profile", "plain-stale":
 			if !login(b) {
 				return false
@@ -303,6 +309,8 @@ func vfC14(w *vfWorld) {
 			return b.GET(rep, pending.CallbackTarget(pp))
 		case "bearer":
 			return b.Do(rep, &vfReq{Method: "GET", Target: "/api/x", NoJar: true, Headers: [][2]string{{"Authorization", "Bearer " + bearer}}})
+		case "backend-logout":
+			return b.GET(rep, pp+"/sign_out?rd=%2Fbye")
 		default:
 			return b.GET(rep, "/app/stale")
 		}
@@ -335,6 +343,8 @@ func vfC14(w *vfWorld) {
 	switch flow {
 	case "login", "login-profile", "plain-login", "google-login":
 		okFree = r0.Status == 302 && vfSessionCookieSet(r0, cfg.CookieName)
+	case "backend-logout":
+		okFree = r0.Status == 302 && r0.Location() == "/bye"
 	default:
 		okFree = served(r0)
 	}
@@ -527,6 +537,10 @@ func vfC14(w *vfWorld) {
 			r := act(bh)
 			if !(r.Status == 302 && vfSessionCookieSet(r, cfg.CookieName)) {
 				w.violate("C14", "not-recovered", flow, "after the fault sweep an honest login fails: status %d", r.Status)
+			}
+		case "backend-logout":
+			if r := act(bh); r.Status != 302 {
+				w.violate("C14", "not-recovered", flow, "after the fault sweep an honest sign-out answers %d", r.Status)
 			}
 		default:
 			r := act(bh)
